@@ -65,6 +65,11 @@ claim("C15", "CFG must-pass / dominance + decision-table extraction over go/ssa"
       "Not covered: peak allocator bytes, actual inflated sizes, boundary arithmetic as values.",
       "DESIGN.md §4 C15")
 
+claim("C11", "flow- and path-sensitive ownership typestate over go/ssa (abstract buffers x referrers, disjunctive states under a predicate abstraction)",
+      "Decides, on every path of every function of nbio, nbhttp and nbhttp/websocket (~780 bodies, ~280 release and ~120 resize events), that a pooled buffer, every view of its contents and every field or local still referring to it is not used, stored, resized or released again after Free / after being consumed by Append, that a field whose buffer was released is overwritten before the function returns, and that buffers released by a closure handed to an executor are released by the caller exactly on the !ok edge. Plus: the terminal-state guard that justifies the one frozen exception, the write-queue release protocol (flush completion edge / teardown loop then drop), and that views handed to body/parse sinks are only read or copied. One genuine use-after-release + double release found and repaired.",
+      "Not covered: cross-goroutine use after release that needs a schedule, user allocators, heap aliasing beyond struct-field places keyed by type and local cells; a program point with more than 1024 distinct abstract path states would be merged (none on this tree).",
+      "DESIGN.md §4 C11")
+
 PENDING = "check not built yet in this round (static rule tables are being added property by property; see DESIGN.md §4 for the planned obligations)"
 for pid in ["C%02d" % i for i in range(1, 21)]:
     if pid not in PROPS:
